@@ -58,7 +58,7 @@ def native(ty: Ty, rng, depth=0, hashable=False):
         return CountryCode(ch(('gb', 'us', 'cn')))
     if k == 'sub':
         cls = py_class(ty)
-        return cls({'int': 5, 'float': 2.5, 'str': 'abc'}[ty.x['base']])
+        return cls({'int': 5, 'float': 2.5, 'str': 'abc', 'bytes': b'ab'}[ty.x['base']])
     if k == 'lit':
         return ch(ty.x['vals'])
     if k == 'enum':
